@@ -7,7 +7,10 @@ SPEC = dict(
                'exceeds the budget of modified residues, in skip mode keeps every pre-existing residue modification intact, raises only '
                'ValueError and only for an invalid mode, and the recursion terminates (measure: residues left); _variable_mods_builder hands '
                'it the budget max_mods + (number of already modified residues), so every returned form has at most max_mods additional '
-               'modified residues. BOUNDED (labelled) on the real builders: apply_static_mods over 8 peptides x 6 rule sets x 5 terminal specs x 3 conflict modes '
+               'modified residues. The static builder apply_static_mods (annotation input, residue rules, any conflict mode) is proved to keep the '
+               'residues and every other annotation, to leave every position no rule matches untouched, to modify every matched position, '
+               'and in skip mode to leave every already modified position exactly as it was (two nested loop invariants over the rules seen '
+               'and the matches done; dictionary comprehensions of the input normalisation). BOUNDED (labelled) on the real builders: apply_static_mods over 8 peptides x 6 rule sets x 5 terminal specs x 3 conflict modes '
                'against a per-site oracle (modifications on every matched residue / terminus and on no other; skip / append / overwrite; '
                'idempotence of skip; input not mutated; str == annotation); apply_variable_mods over 5 rule sets x 5 terminal specs x max_mods '
                '0..2(4) x 3 modes against an exhaustive subset enumeration of the eligible sites (exactly those forms, each once, input form '
@@ -20,8 +23,9 @@ SPEC = dict(
     technique='weakest-precondition VCs from the real AST of the recursive enumerator and its builder against sidecar contracts (bag of yielded forms, recursion measure), discharged by z3 / cvc5; bounded run-time contract check against an exhaustive subset enumeration as labelled stand-in for exact enumeration and the static builder',
     bounded=[dict(name='C13-bounded', script='bounded/C13.py')],
     replay_finder='bounded/C13.py',
-    explanation='safety half of the variable builder proved (nothing else changes, budget, termination); exact enumeration and the static builder bounded',
-    proved_clauses=['variable builder: original residues and pre-existing modifications intact, changes only at offered positions, at most max_mods additional modified residues, terminates'],
+    explanation='safety half of the variable builder proved (nothing else changes, budget, termination); exact enumeration, terminal rules, append / overwrite values and idempotence bounded',
+    proved_clauses=['static builder (residue rules): modifications on every matched residue and on no other; skip mode keeps existing modifications; everything else untouched',
+                    'variable builder: original residues and pre-existing modifications intact, changes only at offered positions, at most max_mods additional modified residues, terminates'],
     bounded_clauses=['static builder: per-site exactness, modes, idempotence', 'variable builder: exact enumeration (skip), weaker clause otherwise'],
     uncovered_clauses=['zero-width regex rule keys'], assumptions=['LC-DEEPCOPY'], trusted_base=['z3 5.1', 'cvc5 1.0.3', 'pyvc', 'bounded/C13.py'],
 )
